@@ -25,6 +25,7 @@ import os
 import random
 
 from . import c03_hist as H
+from . import c03_obj as O
 from . import codec_common as K
 from . import common as C
 
@@ -36,6 +37,11 @@ ASSUMPTIONS = [
     "the read size (4096) is not a parameter of the model: the theorems hold for every chunk list, so also for every list of "
     "chunks of at most n bytes; that the task decodes after EVERY read whatever its length is tied by the correspondence "
     "(fake socket that honours n, bursts that make reads return exactly n bytes) and judged by the oracle",
+    "processing faults: the model with a processing step that may raise is ReaderProc.readLoopP (theorems in Props/C10: "
+    "readLoopP_resume …); C03 ties it to the real task for reads that are not frame aligned and judges, implementation only, that "
+    "every frame is still handed over exactly once provided a later read arrives (what a fault leaves in the buffer is drained by "
+    "the NEXT read – see the report: on the current tree frames behind a faulty frame in the last read of a connection are not "
+    "handed over)",
     "several connections on one object: the model of ONE connection is `feedAll` from the EMPTY buffer over the reads of that "
     "connection; a connection cut off before its stream is complete is covered by theorem reader_truncated_stream (exactly the "
     "frames that arrived completely are handed over, for every chunking); that the loop stops at the frame whose processing "
@@ -544,6 +550,9 @@ def _work_hist(args):
             lines.append("codec.feed " + " ".join(C.cp(x) for x in H.model_chunks(d, c)))
         key = "%s/%s" % (hist["role"], ">".join(d["end"] for d in hist["days"][:-1]) + ">")
         stats[key] = stats.get(key, 0) + 1
+        for k2, v in (("runs_with_refused_call_between_reads", any(H.calls_of(c) for c in cl)),
+                      ("runs_with_inbound_journal_fault", any(d.get("jfault") for d in hist["days"]))):
+            stats[k2] = stats.get(k2, 0) + bool(v)
     model = C.Driver().batch(lines) if with_model and lines else [None] * len(lines)
     li = 0
     for (h, ci), res in zip(jobs, runs):
@@ -584,6 +593,86 @@ def run_hist_jobs(hists, jobs, with_model=True):
     return dis, fails, stats
 
 
+# ------------------------------------------------------------------ one object: processing faults, abandoned transports
+def gen_frame_ok(rng, small=False):
+    """a frame whose processing does not raise in the one-object runner (no tag 9999)"""
+    while True:
+        f = gen_frame(rng, small)
+        if b"\x019999=" not in f:
+            return f
+
+
+def build_obj_cases(ctx, rng, harder=False):
+    cases = []
+    for _ in range(ctx.n(6, 40) * (2 if harder else 1)):
+        seg = O.gen_fault_segment(rng, gen_frame_ok, gen_junk, rng.choice([2, 3, 3, 4]))
+        for cuts in O.fault_cuts(rng, seg, ctx.n(6, 30)):
+            cases.append([dict(seg, cuts=cuts)])
+    for _ in range(ctx.n(120, 1500) * (2 if harder else 1)):
+        cases.append(O.gen_history_case(rng, gen_frame_ok, gen_junk, sized_frame))
+    return cases
+
+
+def _work_obj(args):
+    cases, with_model = args
+    dis, fails, stats = [], [], {"processing_fault_cases": 0, "object_history_cases": 0, "segments_cut_off_mid_frame": 0,
+                                 "faulty_frame_not_last_in_its_read": 0}
+    runs, lines = [], []
+    for case in cases:
+        res = O.run_segments([O.bursts_of(s) for s in case])
+        runs.append(res)
+        for rep, seen in res:
+            lines.append("codec.feedp " + " ".join(C.cp(x) for x in seen))
+    model = C.Driver().batch(lines) if with_model and lines else [None] * len(lines)
+    li = 0
+    for case, res in zip(cases, runs):
+        inp = O.case_input(case)
+        if case[0].get("faults"):
+            stats["processing_fault_cases"] += 1
+            seen = res[0][1]
+            pos, hit = 0, False
+            for c in seen:
+                j = c.find(b"\x019999=")
+                if j >= 0 and c.find(b"8=FIX.", j) >= 0:
+                    hit = True
+            stats["faulty_frame_not_last_in_its_read"] += hit
+        else:
+            stats["object_history_cases"] += 1
+            for s in case:
+                if s.get("upto") is not None and O.complete_frames(s)[1] < s["upto"]:
+                    stats["segments_cut_off_mid_frame"] += 1
+        bad = False
+        for k, (rep, seen) in enumerate(res):
+            ml = model[li]
+            li += 1
+            if ml is not None and ml != rep and not bad:
+                bad = True
+                dis.append({"input": inp, "model": f"segment {k + 1}: " + ml[:500], "impl": f"segment {k + 1}: " + rep[:500]})
+        fresh = None
+        if len(case) > 1:
+            fresh = [O.run_segments([O.bursts_of(s)])[0][0] for s in case]
+        for sig, what, exp, obs in O.clauses(case, [r[0] for r in res], fresh):
+            fails.append({"signature": sig, "what": what, "input": inp, "expected": exp, "observed": obs})
+    return dis, fails, stats
+
+
+def run_obj_jobs(cases, with_model=True):
+    nproc = max(1, min(12, os.cpu_count() or 1))
+    size = max(5, min(60, len(cases) // (nproc * 2) + 1))
+    batches = [(cases[a : a + size], with_model) for a in range(0, len(cases), size)]
+    if nproc == 1 or len(batches) <= 1:
+        results = [_work_obj(b) for b in batches]
+    else:
+        results = get_pool().map(_work_obj, batches, chunksize=1)
+    dis, fails, stats = [], [], {}
+    for d, f, s in results:
+        dis += d
+        fails += f
+        for k, v in s.items():
+            stats[k] = stats.get(k, 0) + v
+    return dis, fails, stats
+
+
 def hist_jobs(hists):
     return [(h, ci) for h in range(len(hists)) for ci in range(len(hists[h]["cuts"]))]
 
@@ -606,12 +695,16 @@ def correspondence(ctx):
     hdis, hfails, hstats = run_hist_jobs(hists, hj, with_model=True)
     dis += hdis
     fails += hfails
+    ocases = build_obj_cases(ctx, random.Random(f"C03/obj/{ctx.seed}"))
+    odis, ofails, ostats = run_obj_jobs(ocases, with_model=True)
+    dis += odis
+    fails += ofails
     tails, ndays = {}, {}
     for h in hists:
         ndays[len(h["hist"]["days"])] = ndays.get(len(h["hist"]["days"]), 0) + 1
         for d in h["hist"]["days"]:
             tails[d["tail_kind"]] = tails.get(d["tail_kind"], 0) + 1
-    _STASH["fails"], _STASH["streams"], _STASH["jobs"] = fails, streams, len(jobs) + len(hj)
+    _STASH["fails"], _STASH["streams"], _STASH["jobs"] = fails, streams, len(jobs) + len(hj) + len(ocases)
     kinds = {}
     for s in streams:
         kinds[s["kind"]] = kinds.get(s["kind"], 0) + 1
@@ -626,8 +719,8 @@ def correspondence(ctx):
     for (i, cuts) in jobs[:: max(1, len(jobs) // 4)][:4]:
         sample.append({"input": job_input(streams[i], cuts), "reply": run_bursts(K.split_at(streams[i]["bytes"], cuts))[0][:300]})
     return {
-        "evaluations": len(jobs) + len(hj),
-        "distinct_nontrivial": distinct + len(hj),
+        "evaluations": len(jobs) + len(hj) + len(ocases),
+        "distinct_nontrivial": distinct + len(hj) + len(ocases),
         "rule": "corpus (corpus/codec/c03_*.json: historic D3 offsets, cuts in marker / BodyLength / CheckSum / before the last SOH, "
         "values containing 8=FIX.) + generated streams of 1–4 frames (session + application types, repeating groups, values with "
         "8=FIX. / 10= / 9=), junk none / marker-free (half of the blocks end in 8, 8=, 8=F, 8=FI, 8=FIX) / containing a marker "
@@ -641,13 +734,22 @@ def correspondence(ctx):
         "connections, roles acceptor (_handle_accept) / initiator (connect()), ends Logout handshake / EOF / watchdog / application "
         "disconnect, trailing bytes none / partial marker / frame head / frame prefix / junk / whole frame, chunkings canonical / one "
         "read / last frame+tail in one read / cut inside the last frame / random with 1-byte reads around the last frame's end; per "
-        "connection the deliveries are compared with the model run from the empty buffer up to the terminating Logout",
+        "connection the deliveries are compared with the model run from the empty buffer up to the terminating Logout; in half of the "
+        "random chunkings a second coroutine makes a public call that must be REFUSED (connect() on the live object, send of "
+        "unencodable text) while the read task is parked between two reads; a quarter of the non-Logout connections have the "
+        "inbound journal write of one frame fail once (sqlite3.OperationalError) with a fault-free frame in a later read; tails "
+        "include prefixes of frames of 150–2500 bytes. ONE OBJECT (c03_obj.py), reader level: (a) processing raises for 1–2 frames "
+        "of a stream (tag 9999) cut anywhere – read per frame, one read, 1-byte reads, the faulty frame together with the head of "
+        "the next, random – compared with ReaderProc.readLoopP (`codec.feedp`); (b) 2–4 transports in a row on one connection / "
+        "Codec object, all but the last cut off (70 % inside their last frame, frames of 150–5000 bytes included), mostly one read "
+        "each, compared per transport with the model from the empty buffer and with the same reads on a fresh object",
         "samples": sample,
         "exhaustive": False,
         "distribution": {"streams": kinds, "partitions_by_cut_count": ncuts, "partitions_with_a_cut": stats,
                          "stream_bytes": sorted(len(s["bytes"]) for s in streams),
                          "history": {"runs": len(hj), "histories": len(hists), "connections_per_history": ndays,
-                                     "trailing_bytes": tails, "role/ends_of_earlier_connections": hstats}},
+                                     "trailing_bytes": tails, "role/ends_of_earlier_connections": hstats},
+                         "one_object": dict(ostats, cases=len(ocases))},
         "disagreements": dis,
     }
 
@@ -660,11 +762,15 @@ def oracle(ctx, disagreements, broken):
     n_runs = _STASH["jobs"]
     rng = random.Random(f"C03/oracle/{ctx.seed}")
     extra_streams, extra_jobs = [], []
-    hist_first = []
+    hist_first, obj_first = [], []
     if broken:
         for d in disagreements[:200]:
             inp = d["input"]
             if not isinstance(inp, dict):
+                continue
+            if "segments" in inp:
+                if len(obj_first) < 60:
+                    obj_first.append(O.case_from_input(inp))
                 continue
             if "history" in inp:
                 if len(hist_first) < 40:
@@ -709,21 +815,36 @@ def oracle(ctx, disagreements, broken):
     _, f3, _ = run_hist_jobs(hists, hj, with_model=False)
     failures += f3
     n_runs += len(hj)
+    ocases = obj_first + build_obj_cases(ctx, rng, harder=bool(broken))
+    if not broken:
+        ocases = ocases[: ctx.n(60, 600)] + ocases[-ctx.n(60, 600):]
+    _, f4, _ = run_obj_jobs(ocases, with_model=False)
+    failures += f4
+    n_runs += len(ocases)
 
     # smallest witness first per signature
     def size_key(f):
         inp = f["input"]
         if "history" in inp:
             return (sum(len(x) for d in inp["history"]["days"] for x in d["frames"]), sum(len(d["cuts"]) for d in inp["history"]["days"]))
+        if "segments" in inp:
+            return (sum(len(x) for d in inp["segments"] for x in d["frames"]), sum(len(d["cuts"]) for d in inp["segments"]))
         return (len("".join(inp["frames"])) + len("".join(inp["gs"])), len(inp["cuts"]))
     failures.sort(key=size_key)
-    ctx.oracle_stats = {"reader_runs_judged": n_runs, "fresh_runs": len(extra_jobs), "fresh_history_runs": len(hj), "failures": len(failures),
+    ctx.oracle_stats = {"reader_runs_judged": n_runs, "fresh_runs": len(extra_jobs), "fresh_history_runs": len(hj), "fresh_one_object_cases": len(ocases), "failures": len(failures),
                         "searched_harder": bool(broken)}
     return failures
 
 
 def replay(ctx, rp):
     inp = rp["input"]
+    if "segments" in inp:
+        case = O.case_from_input(inp)
+        res = [r[0] for r in O.run_segments([O.bursts_of(s) for s in case])]
+        fresh = [O.run_segments([O.bursts_of(s)])[0][0] for s in case] if len(case) > 1 else None
+        sigs = [c[0] for c in O.clauses(case, res, fresh)]
+        print("replay:", [(len(O.seg_stream(s)), s["cuts"]) for s in case], "->", [r[:120] for r in res], sigs)
+        return rp["signature"] in sigs
     if "history" in inp:
         h, cl = H.hist_from_input(inp)
         res = H.run_with(h, cl)
